@@ -201,12 +201,36 @@ func TestRaceCollection(t *testing.T) {
 			func(g, i int) {
 				sctx, cn := context.WithCancel(ctx)
 				cancels.Store(fmt.Sprint(g, i), cn)
-				drain(sctx, c.Pull(sctx, resource.WithBackpressure(i%2 == 0)), func(e *resource.CollectionChange) { touch(e.OldValue); touch(e.NewValue) })
+				drain(sctx, c.Pull(sctx, resource.WithBackpressure(i%2 == 0)), func(e *resource.CollectionChange) {
+					_ = e.ChangeType.String() + e.Id
+					_ = e.SeedValue || e.LastSeedValue
+					touch(e.OldValue)
+					touch(e.NewValue)
+				})
 			},
 			func(g, i int) {
 				sctx, cn := context.WithCancel(ctx)
 				cancels.Store(fmt.Sprint("id", g, i), cn)
 				drain(sctx, c.PullID(sctx, ids[i%3]), func(e *resource.ValueChange) { touch(e.Value) })
+			},
+			func(g, i int) {
+				// a filtered (and sometimes masked) view next to the plain ones: updates flip the predicate's verdict all the
+				// time, and every subscriber reads every field of what it receives
+				sctx, cn := context.WithCancel(ctx)
+				cancels.Store(fmt.Sprint("inc", g, i), cn)
+				opts := []resource.ReadOption{resource.WithBackpressure(i%3 != 0), resource.WithInclude(func(id string, m proto.Message) bool {
+					touch(m)
+					return m != nil && m.(*testproto.ForeignMessage).C%2 == 0
+				})}
+				if i%2 == 0 {
+					opts = append(opts, resource.WithReadPaths(&testproto.ForeignMessage{}, "c"))
+				}
+				drain(sctx, c.Pull(sctx, opts...), func(e *resource.CollectionChange) {
+					_ = e.ChangeType.String() + e.Id
+					_ = e.SeedValue || e.LastSeedValue
+					touch(e.OldValue)
+					touch(e.NewValue)
+				})
 			},
 			func(g, i int) {
 				cancels.Range(func(k, cn any) bool { cn.(context.CancelFunc)(); cancels.Delete(k); return false })
@@ -300,10 +324,27 @@ type echoServer struct {
 }
 
 func (echoServer) Unary(ctx context.Context, r *testproto.UnaryRequest) (*testproto.UnaryResponse, error) {
+	if r.Msg == "late" {
+		for k := 0; k < 50; k++ {
+			runtime.Gosched()
+		}
+		_ = grpc.SetHeader(ctx, metadata.Pairs("h", "late"))
+		_ = grpc.SetTrailer(ctx, metadata.Pairs("t", "late"))
+		return &testproto.UnaryResponse{Msg: r.Msg}, nil
+	}
 	_ = grpc.SetHeader(ctx, nil)
 	return &testproto.UnaryResponse{Msg: r.Msg}, nil
 }
 func (echoServer) ServerStream(r *testproto.ServerStreamRequest, ss grpc.ServerStreamingServer[testproto.ServerStreamResponse]) error {
+	if r.NumRes == 99 {
+		// a handler that takes a moment before it sets its headers and does not watch its context
+		for k := 0; k < 50; k++ {
+			runtime.Gosched()
+		}
+		_ = ss.SetHeader(metadata.Pairs("h", "late"))
+		_ = grpc.SetHeader(ss.Context(), metadata.Pairs("h2", "late"))
+		return nil
+	}
 	_ = ss.SetHeader(metadata.Pairs("h", "1"))
 	for i := int32(0); i < r.NumRes; i++ {
 		ss.SetTrailer(metadata.Pairs("t", fmt.Sprint(i)))
@@ -373,6 +414,29 @@ func TestRaceWrappedClient(t *testing.T) {
 						c() // cancel mid stream
 					}
 				}
+			},
+			func(g, i int) {
+				// the caller gives up before the handler has sent (or even set) its headers, then asks for them
+				sctx, c := context.WithCancel(ctx)
+				st, err := client.ServerStream(sctx, &testproto.ServerStreamRequest{NumRes: 99})
+				c()
+				if err != nil {
+					return
+				}
+				if h, _ := st.Header(); h != nil {
+					_ = len(h.Get("h"))
+				}
+				_ = len(st.Trailer())
+			},
+			func(g, i int) {
+				// the same through a unary call that collects header and trailer
+				sctx, c := context.WithTimeout(ctx, time.Duration(i%3)*50*time.Microsecond)
+				defer c()
+				var h, tr metadata.MD
+				if r, err := client.Unary(sctx, &testproto.UnaryRequest{Msg: "late"}, grpc.Header(&h), grpc.Trailer(&tr)); err == nil {
+					touch(r)
+				}
+				_ = len(h.Get("h")) + len(tr)
 			},
 			func(g, i int) {
 				st, err := client.ClientStream(ctx)
